@@ -100,6 +100,19 @@ theorem localStep_spec {sf prio epoch : Nat} {v : Invo} {a : Act} {sf' : Nat} {v
       | (split <;> omega)
       | (split <;> split <;> omega)
 
+/-- The number of alive bodies of an invocation grows only in `decideStart`, and then `prio = 0`. -/
+theorem localStep_alive {sf prio epoch : Nat} {v : Invo} {a : Act} {sf' : Nat} {v' : Invo}
+    (h : localStep true sf prio epoch v a = some (sf', v')) :
+    v'.aliveN ≤ v.aliveN ∨ (a = .decideStart ∧ prio = 0) := by
+  obtain ⟨pc, cur, orph, canc⟩ := v
+  cases a <;> cases pc <;> simp [localStep] at h <;>
+    (try (obtain ⟨h1, h2, h3⟩ := h; subst h2; subst h3)) <;>
+    (try (obtain ⟨h2, h3⟩ := h; subst h2; subst h3)) <;>
+    simp_all [Invo.aliveN] <;>
+    first
+      | omega
+      | (split <;> omega)
+
 theorem wf_init (cap n : Nat) : WF (init cap n) := by
   refine ⟨Nat.le_refl _, ?_, ?_⟩
   · have : sumBy holdW (List.replicate n ({} : Invo)) = 0 :=
@@ -191,17 +204,18 @@ theorem cap_step {s s' : State} {e : Event} (h : step s e = some s') : s'.cap = 
     · cases h
     · split at h <;> cases h; rfl
 
-theorem Reachable.cap_eq {cap n : Nat} {s : State} (h : Reachable cap n s) : s.cap = cap := by
-  obtain ⟨es, h⟩ := h
-  suffices ∀ (s0 : State), run s0 es = some s → s.cap = s0.cap from this _ h
-  intro s0 h
+theorem cap_run {s0 s : State} {es : List Event} (h : run s0 es = some s) : s.cap = s0.cap := by
   induction es generalizing s0 with
   | nil => simp [run_nil] at h; subst h; rfl
   | cons e es ih =>
     rw [run_cons] at h
-    cases h1 : SV.Task.step s0 e with
+    cases h1 : step s0 e with
     | none => simp [h1] at h
-    | some s1 => simp [h1] at h; rw [ih s1 h, cap_step h1]
+    | some s1 => simp [h1] at h; rw [ih h, cap_step h1]
+
+theorem Reachable.cap_eq {cap n : Nat} {s : State} (h : Reachable cap n s) : s.cap = cap := by
+  obtain ⟨es, h⟩ := h
+  exact cap_run h
 
 /-! ### consequences of the invariant -/
 
